@@ -518,3 +518,42 @@ Theorem c10_textures_bare_search_refuted :
   tex_view_wr c [[65; 66]; [65]]%N = [TBytes [65; 66; 0]%N; TOffs [0; 0]] /\
   tex_view_rd c (tex_view_wr c [[65; 66]; [65]]%N) = Some [[65; 66]; [65; 66]]%N.
 Proof. exact tex_view_codec_bare_search_refuted. Qed.
+
+(** Views that are a plain array of fixed [struct] records (PLANES, VERTEXES, CUBEMAPS: one lump, the reader is
+    [iter_unpack fmt], the writer packs every record with the same format; SM/LazyLumpsRecCodec.v).  The direction C10
+    needs and C11 does not state: whatever [unpack] returns for a string of bytes fits the format. *)
+From SV Require Import Bin.Struct SM.LazyLumpsRecCodec Fmt.BspFormatsSpec.
+Close Scope N_scope.
+
+Theorem c10_unpack_returns_fitting_values : forall f bs vs, wf_fmt f = true -> all_bytes bs = true ->
+  unpack f bs = Some vs -> fits f vs = true.
+Proof. exact unpack_fits. Qed.
+
+(** The codec premise of such a view for EVERY content of its lump, from the well-formedness of the format alone. *)
+Theorem c10_record_array_codec_premise : forall f, wf_fmt f = true -> 0 < calcsize f ->
+  forall data recs, all_bytes data = true -> rec_view_rd f [data] = Some recs ->
+  rec_view_rd f (rec_view_wr f recs) = Some recs /\ length (rec_view_wr f recs) = 1.
+Proof. exact rec_view_codec. Qed.
+
+(** ... and from the object C11 generates from bsp.py: a stream of Gen/BspFormats_gen.v that passes [rec_stream_ok_in] in a
+    layout table (all reading and writing alternatives denote one well-formed format of positive size: an instance
+    obligation per view and layout) gives the premise for ANY pairing of a reading and a writing alternative. *)
+Theorem c10_record_array_codec_from_generated_stream : forall lay n appl ralts walts ra wa fr fw,
+  rec_stream_ok_in lay (n, appl, ralts, walts) = true -> In ra ralts -> In wa walts ->
+  alt_fmt lay ra = Some fr -> alt_fmt lay wa = Some fw ->
+  forall data recs, all_bytes data = true -> rec_view_rd fr [data] = Some recs ->
+  rec_view_rd fr (rec_view_wr fw recs) = Some recs /\ length (rec_view_wr fw recs) = 1.
+Proof. exact rec_view_codec_generated. Qed.
+
+(** Non-vacuity (two plane records [<ffffi] are read and written back byte-identically) and the nearby wrong shape (a
+    writer that packs the last field as a short writes records the reader rejects). *)
+Theorem c10_record_array_example_and_other_format_refuted :
+  (wf_fmt fmt_plane = true /\ calcsize fmt_plane = 20 /\ all_bytes ex_planes = true /\
+   option_map (@length _) (rec_view_rd fmt_plane [ex_planes]) = Some 2 /\
+   option_map (rec_view_wr fmt_plane) (rec_view_rd fmt_plane [ex_planes]) = Some [ex_planes]) /\
+  (let wr_short := [KFloat; KFloat; KFloat; KFloat; KInt true 2] in
+   match rec_view_rd fmt_plane [ex_planes] with
+   | Some recs => rec_view_rd fmt_plane (rec_view_wr wr_short recs) = None
+   | None => False
+   end).
+Proof. exact (conj rec_view_codec_example rec_view_other_writer_format_refuted). Qed.
